@@ -360,6 +360,28 @@ func (u *c17ucase) render() string {
 	return b.String()
 }
 
+// staleCmd: a plain command that is a level transition of the device at the default desired level
+// (half of the network cases), sent between the ordinary command and Close.
+func (u *c17ucase) staleCmd() string {
+	if u.driverType != "network" || (u.seed>>5)%2 == 0 {
+		return ""
+	}
+	var cands []string
+	rd := u.effDD()
+	for _, l := range u.levels {
+		if l.previous == rd && l.esc != "" && !l.auth {
+			cands = append(cands, l.esc)
+		}
+		if l.key == rd && l.previous != "" {
+			cands = append(cands, l.deesc)
+		}
+	}
+	if len(cands) == 0 {
+		return ""
+	}
+	return cands[int(u.seed>>11)%len(cands)]
+}
+
 // effective sections (the property's statement: a variant replaces the sections it defines)
 func (u *c17ucase) effDD() string {
 	if u.useVariant && u.vdd != "" {
@@ -473,10 +495,14 @@ func c17uAsk(c *ctx, us []*c17ucase) []*c17uModel {
 	return out
 }
 
-// expectedLines: the non-empty lines a list of on-X actions makes the device receive, starting in
-// mode `mode`: an acquire walks the tree path, a command first returns to the driver's default
-// desired level (SendCommand does), written input goes out with the next return.
-func (d *c17def) expectedLines(acts []c17act, mode, rd, secret string) (lines []string, end string, stop byte) {
+// expectedLines: the non-empty lines a list of on-X actions makes the device receive, starting
+// with the device in `mode` and the driver's cached level `cache`. An acquire re-reads the prompt
+// and walks the tree path from the device's ACTUAL level (onx_acquire_reads_device_level); a
+// command goes through SendCommand, which navigates to the default desired level only when the
+// cached level is not the default (the library's documented fast path: a payload command that
+// changed the level itself leaves that cache stale — DESIGN §6, not a finding); written input goes
+// out with the next return.
+func (d *c17def) expectedLines(acts []c17act, mode, cache, rd, secret string) (lines []string, end, endCache string, stop byte) {
 	pending := ""
 	for _, a := range acts {
 		switch a.kind {
@@ -486,15 +512,18 @@ func (d *c17def) expectedLines(acts []c17act, mode, rd, secret string) (lines []
 				pending = ""
 			}
 			lines = append(lines, d.pathLines(mode, a.arg, secret)...)
-			mode = a.arg
+			mode, cache = a.arg, a.arg
 		case 'c':
-			if pending != "" {
-				lines = append(lines, pending)
-				pending = ""
+			if cache != rd {
+				if pending != "" {
+					lines = append(lines, pending)
+					pending = ""
+				}
+				lines = append(lines, d.pathLines(mode, rd, secret)...)
+				mode, cache = rd, rd
 			}
-			lines = append(lines, d.pathLines(mode, rd, secret)...)
-			mode = rd
-			lines = append(lines, a.arg)
+			lines = append(lines, pending+a.arg)
+			pending = ""
 		case 'w':
 			pending += a.arg
 		case 'r':
@@ -503,28 +532,30 @@ func (d *c17def) expectedLines(acts []c17act, mode, rd, secret string) (lines []
 			}
 			pending = ""
 		case 'e', 'p':
-			return lines, mode, a.kind
+			return lines, mode, cache, a.kind
 		}
 	}
-	return lines, mode, 0
+	return lines, mode, cache, 0
 }
 
 type c17uOut struct {
-	loadErr           error
-	loadPanic         string
-	wrongGetterErr    error
-	landing           []string // mismatches between option values and driver fields
-	sections          string
-	openErr, closeErr error
-	cmdErr            error
-	sessPanic         string
-	hang              bool
-	lines             []sim.LineEvent
-	nOpen, nCmd       int
-	modeOpen          string
-	maxRead           int
-	closeCalls        int
-	stage             string
+	loadErr             error
+	loadPanic           string
+	wrongGetterErr      error
+	landing             []string // mismatches between option values and driver fields
+	sections            string
+	openErr, closeErr   error
+	cmdErr              error
+	sessPanic           string
+	hang                bool
+	lines               []sim.LineEvent
+	nOpen, nCmd, nStale int
+	modeCmd             string
+	staleErr            error
+	modeOpen            string
+	maxRead             int
+	closeCalls          int
+	stage               string
 }
 
 func c17uLanding(u *c17ucase, m *c17uModel, gd *generic.Driver) []string {
@@ -687,8 +718,13 @@ func c17uRun(u *c17ucase, m *c17uModel, d *c17def, dir string, srv *c17uServer) 
 		} else {
 			_, err = gd.SendCommand("show c17")
 		}
-		_, n = snap()
-		set(func() { out.stage, out.cmdErr, out.nCmd = "command", err, n })
+		mo, n = snap()
+		set(func() { out.stage, out.cmdErr, out.nCmd, out.modeCmd, out.nStale = "command", err, n, mo, n })
+		if sc := u.staleCmd(); sc != "" && err == nil && nd != nil {
+			_, err = nd.SendCommand(sc)
+			mo, n = snap()
+			set(func() { out.staleErr, out.modeCmd, out.nStale = err, mo, n })
+		}
 		if nd != nil {
 			err = nd.Close()
 		} else {
@@ -836,7 +872,7 @@ func c17uJudge(c *ctx, u *c17ucase, m *c17uModel, d *c17def, o *c17uOut, verbose
 	} else if u.driverType == "network" {
 		start = d.levels[int(u.seed>>7)%len(d.levels)].key
 	}
-	expOpen, modeAfterOpen, stop := d.expectedLines(openActs, start, rd, secret)
+	expOpen, modeAfterOpen, cacheAfterOpen, stop := d.expectedLines(openActs, start, "", rd, secret)
 	opened := nonEmptyLines(o.lines[:c17min(o.nOpen, len(o.lines))])
 	switch stop {
 	case 'p':
@@ -873,7 +909,7 @@ func c17uJudge(c *ctx, u *c17ucase, m *c17uModel, d *c17def, o *c17uOut, verbose
 		return
 	}
 	cmdLines := nonEmptyLines(o.lines[c17min(o.nOpen, len(o.lines)):c17min(o.nCmd, len(o.lines))])
-	expCmd, modeAfterCmd, _ := d.expectedLines([]c17act{{kind: 'c', arg: "show c17"}}, modeAfterOpen, rd, secret)
+	expCmd, modeAfterCmd, cacheAfterCmd, _ := d.expectedLines([]c17act{{kind: 'c', arg: "show c17"}}, modeAfterOpen, cacheAfterOpen, rd, secret)
 	if u.driverType == "generic" {
 		expCmd = []string{"show c17"}
 	}
@@ -883,8 +919,20 @@ func c17uJudge(c *ctx, u *c17ucase, m *c17uModel, d *c17def, o *c17uOut, verbose
 	if o.closeErr != nil {
 		fail("oracle", "user-def-close-error", "Close failed: %v", o.closeErr)
 	}
-	closed := nonEmptyLines(o.lines[c17min(o.nCmd, len(o.lines)):])
-	expClose, _, cstop := d.expectedLines(closeActs, modeAfterCmd, rd, secret)
+	if sc := u.staleCmd(); sc != "" {
+		// the device moved behind the driver: Close starts from where the device is
+		c.res.Count("user-def:stale-command-before-close")
+		if o.staleErr != nil {
+			fail("oracle", "user-def-command-error", "SendCommand(%q) failed: %v", sc, o.staleErr)
+			return
+		}
+		if o.modeCmd == modeAfterCmd {
+			fail("machinery", "user-def-stale-setup", "the transition command %q did not move the device from %s", sc, modeAfterCmd)
+		}
+		modeAfterCmd = o.modeCmd
+	}
+	closed := nonEmptyLines(o.lines[c17min(o.nStale, len(o.lines)):])
+	expClose, _, _, cstop := d.expectedLines(closeActs, modeAfterCmd, cacheAfterCmd, rd, secret)
 	// a pending write at the end of Close never gets its return; an erroring step ends the list
 	_ = cstop
 	if strings.Join(closed, "\x00") != strings.Join(expClose, "\x00") {
